@@ -261,8 +261,9 @@ def run(chk):
     if confirmed:
         chk.known_finding("D10 uriComposeQueryCharsRequiredEx reports success with a wrapped count (shape sum_wraps: every item "
                           "passes the per-item guard, the unchecked sum passes INT_MAX); model witness C17_no_wrap_refuted "
-                          "(1 item, key=value=715827881 chars -> -9); on the implementation: " + "; ".join(confirmed[:1])
-                          + (" (+%d more)" % (len(confirmed) - 1) if len(confirmed) > 1 else ""))
+                          "(1 item, key=value=715827881 chars -> -9); on the implementation: "
+                          + "; ".join(confirmed[:1] + [c for c in confirmed[1:] if ": 1 item(s) sharing one 715827881-character key and value" in c][:1])
+                          + (" (%d confirmations in all)" % len(confirmed)))
 
     # ---- correspondence verdict -----------------------------------------------------------
     nm = 0; ncr = 0
